@@ -198,8 +198,13 @@ class Oracle:
                         and p.i not in matched]
                 if cand:
                     matched.add(cand[0])
+                    self.sim.labels.add('imap_loss_item')
+                    if self.on('c04'):
+                        self.check_lost_timing(mj, item[2])
                 else:
                     ok_ = False
+            elif ok_ and item[1] == 'Terminated':
+                self.sim.labels.add('imap_terminated_item')
             if not ok_:
                 raise Violation(
                     'C01/own-outcome/%s/unjustified-%s' % (mj.kind, item[1]),
